@@ -80,9 +80,9 @@ def subsets_case(runner, r, base, i, oc, ereqs, epend, sreqs, spend, wreqs):
         info = dict(model=model, usertags=ut, templates=[[n, "".join(l)] for n, l in fl])
         ereqs.append(req)
         epend.append((info, cap, err))
-        q = engtpl.spec_request(model, tpl, itf, ut)
+        q = engtpl.spec_request(model, engrun.in_listing_order(tpl, os.path.join(base, "s%d_%d" % (i, k))), itf, ut)
         sreqs.append(q)
-        spend.append((info, fl, err, final))
+        spend.append((info, engrun.in_listing_order(fl, os.path.join(base, "s%d_%d" % (i, k)), name=lambda f: f[0]), err, final))
         if k == 0:
             wreqs.append(dict(q, cmd="engwf"))
         oc.case(("subset", repr(info["templates"]), repr(ut)), nontrivial=True)
